@@ -2,11 +2,13 @@
 # tools/mutant.sh <patch.diff> <demo.py|-> <ID> [tier]
 # 1. confirms in a scratch worktree that the patch applies, the 125 tests pass with it,
 #    and the demo fails with it / passes without it;
-# 2. applies it to /repo, runs ./check <ID>, and ALWAYS reverts /repo afterwards.
+# 2. runs ./check <ID> against that scratch worktree (VERIF_REPO), so /repo itself is never touched and background runs
+#    against /repo are not disturbed.  (To run a check against /repo with a patch applied by hand:
+#    git -C /repo apply <patch>; ./check <ID>; git -C /repo checkout -- .)
 PATCH="$1"; DEMO="$2"; ID="$3"; TIER="${4:-quick}"
 WT=$(mktemp -d /tmp/mutwt.XXXXXX); rmdir "$WT"
 git -C /repo worktree add -q --detach "$WT" HEAD || exit 2
-cleanup() { git -C /repo worktree remove --force "$WT" 2>/dev/null; git -C /repo checkout -- . ; }
+cleanup() { git -C /repo worktree remove --force "$WT" 2>/dev/null; }
 trap cleanup EXIT
 if [ "$DEMO" != "-" ]; then
   ( cd "$WT" && PYTHONPATH="$WT/src" /venv/bin/python "$DEMO" >/dev/null 2>&1 ); echo "demo on clean tree: exit $?"
@@ -16,5 +18,4 @@ git -C "$WT" apply "$PATCH" || { echo "PATCH DOES NOT APPLY"; exit 2; }
 if [ "$DEMO" != "-" ]; then
   ( cd "$WT" && PYTHONPATH="$WT/src" /venv/bin/python "$DEMO" >"$WT/.demo.out" 2>&1; echo "demo with patch: exit $?"; tail -2 "$WT/.demo.out" )
 fi
-git -C /repo apply "$PATCH" || exit 2
-( cd /verif && VERIF_TIER="$TIER" ./check "$ID" >/tmp/mutcheck.$$ 2>&1; echo "check exit: $?"; grep -c "^VIOLATION" /tmp/mutcheck.$$; grep -E "^VIOLATION|KNOWN-FINDING|MACHINERY" /tmp/mutcheck.$$ | head -5; tail -1 /tmp/mutcheck.$$; rm -f /tmp/mutcheck.$$ )
+( cd /verif && VERIF_REPO="$WT" VERIF_TIER="$TIER" ./check "$ID" >/tmp/mutcheck.$$ 2>&1; echo "check exit: $?"; grep -c "^VIOLATION" /tmp/mutcheck.$$; grep -E "^VIOLATION|KNOWN-FINDING|MACHINERY" /tmp/mutcheck.$$ | head -5; tail -1 /tmp/mutcheck.$$; rm -f /tmp/mutcheck.$$ )
